@@ -4,6 +4,7 @@
    from the source on every run). *)
 From Coq Require Import ZArith List Bool String.
 From SV Require Import c01.Passes_Model_C01 c01.Passes_Basics_C01 c01.Passes_Compat_C01 c01.Passes_Proofs_C01 gen.Gen_C01p.
+From SV Require Import c01.Passes_CEval_C01 c01.Passes_CEvalFn_C01.
 Import ListNotations.
 Open Scope string_scope.
 
@@ -101,3 +102,47 @@ Proof. exact ceval_unsound_if_body_returned. Qed.
 Theorem C01p_ceval_unsound_without_surplus_check :
   exists e, run e = "OK 1 OUT 7" /\ run (ceval off_surplus e) = "OK 1 OUT " /\ run (ceval all_on e) = "OK 1 OUT 7".
 Proof. exact ceval_unsound_without_surplus_check. Qed.
+
+(* ------------------------------------------------------------------ the constant evaluator is meaning preserving
+   (Passes_CEval_C01.v: relation CE.ce + simulation; Passes_CEvalFn_C01.v: every visit of cvisit is an instance).
+
+   Invariant relating the ConstantEnv to the run-time environment: [CE.cok c ρ X] — every variable of X that c binds
+   to a constant d holds [val_of_datum d] in ρ.  One visit under ANY constant environment satisfying it: *)
+Theorem C01p_consteval_visit_preserves : forall c e e' u ch,
+  cwf e = true -> cvisit all_on c e = (e', u, ch) -> has_marker e' = false ->
+  forall n s s' ρ ρ' r s1,
+    CE.srel s s' -> CE.envrel (fv e') ρ ρ' -> CE.cok c ρ (fv e) ->
+    eval n s ρ e = Some (r, s1) ->
+    exists r' s1', eval n s' ρ' e' = Some (r', s1') /\ CE.rrel r r' /\ CE.srel s1 s1'.
+Proof. exact cvisit_preserves. Qed.
+
+(* the whole pass (three runs of up to eleven visits each, from the empty constant environment).
+   Hypotheses, both decidable:
+   [cwf e]      every %plain-let has as many binders as right-hand sides and binds no name twice; a rest lambda has
+                its rest parameter (the first and third cannot be written in the surface syntax);
+   [ceval_ok e] no visit is stopped by the compile-time ArityMismatch (the compilation succeeds).
+   Results are related by a chain of [CE.vrel]: equal first-order values, closures whose bodies are related by CE.ce. *)
+Theorem C01p_consteval_preserves : forall e, cwf e = true -> ceval_ok e = true ->
+  forall n s s' ρ ρ' r s1,
+    CE.srel s s' -> CE.envrel (fv (ceval all_on e)) ρ ρ' ->
+    eval n s ρ e = Some (r, s1) ->
+    exists r' s1', eval n s' ρ' (ceval all_on e) = Some (r', s1') /\ ostar (r, s1) (r', s1').
+Proof. exact consteval_preserves. Qed.
+
+Theorem C01p_consteval_observable : forall e n r, cwf e = true -> ceval_ok e = true ->
+  eval n (ENone, []) ENone e = Some r ->
+  exists r', eval n (ENone, []) ENone (ceval all_on e) = Some r' /\ render_res (Some r) = render_res (Some r').
+Proof. exact consteval_observable. Qed.
+
+(* defect e50bef37: operands judged in the scope of the applied lambda *)
+Theorem C01p_ceval_unsound_if_operands_judged_inside :
+  run w_scope = "OK 7 OUT 1" /\ run (ceval off_operand_scope w_scope) = "ERR OUT 1" /\ run (ceval all_on w_scope) = "OK 7 OUT 1" /\
+  cwf w_scope = true /\ ceval_ok w_scope = true.
+Proof. exact ceval_unsound_if_operands_judged_inside. Qed.
+
+Theorem C01p_consteval_nonvacuous :
+  cwf nv_ce1 = true /\ ceval_ok nv_ce1 = true /\ ceval all_on nv_ce1 <> nv_ce1 /\
+  run nv_ce1 = "OK (4 . (5 . ())) OUT 2 3" /\ run (ceval all_on nv_ce1) = "OK (4 . (5 . ())) OUT 2 3" /\
+  cwf nv_ce2 = true /\ ceval_ok nv_ce2 = true /\ ceval all_on nv_ce2 <> nv_ce2 /\
+  run (ceval all_on nv_ce2) = "OK (1 . (2 . ())) OUT 1".
+Proof. exact consteval_nonvacuous. Qed.
